@@ -2,6 +2,7 @@ package main
 
 import (
 	"math"
+	"strconv"
 	"strings"
 )
 
@@ -377,10 +378,11 @@ func evalNode(e *Expr, sc *Scope) (Val, int) {
 		case VInt:
 			return vInt(v.I + d), sOK
 		case VFloat:
-			if v.F == math.Trunc(v.F) {
-				return vFloat(v.F + float64(d)), sOK
+			ieee := v.F + float64(d)
+			if v.F == math.Trunc(v.F) || decimalStep(v.F, ieee) == ieee {
+				return vFloat(ieee), sOK // the IEEE result and the decimally exact result coincide
 			}
-			return vFloat(v.F + float64(d)), sFloatStep
+			return vFloat(ieee), sFloatStep
 		}
 		return Val{}, sUnspec
 	case "?:":
@@ -448,6 +450,17 @@ func evalNode(e *Expr, sc *Scope) (Val, int) {
 		return r, st
 	}
 	return evalBinary(e.Op, l, r)
+}
+
+// decimalStep rounds the IEEE result of x±1 to the number of decimals x is written with.
+func decimalStep(x, ieee float64) float64 {
+	str := strconv.FormatFloat(x, 'f', -1, 64)
+	dec := 0
+	if i := strings.IndexByte(str, '.'); i >= 0 {
+		dec = len(str) - i - 1
+	}
+	r, _ := strconv.ParseFloat(strconv.FormatFloat(ieee, 'f', dec, 64), 64)
+	return r
 }
 
 // sFloatStep marks the value of ++/-- on a float with a fractional part: the admissible set is
